@@ -45,20 +45,36 @@ func statusWrites(c *chk.Ctx, f *ssa.Function) []statusWrite {
 	return out
 }
 
+// describeHTTPCond renders a branch outcome canonically: the relation that
+// holds (a false outcome is folded into the operator), constants on the right,
+// the bridge's parse hook named by its role rather than by its field name.
 func describeHTTPCond(cd ir.Cond) string {
-	neg := ""
-	if !cd.Truth {
-		neg = "¬"
+	fieldName := func(v ssa.Value) string {
+		u, ok := v.(*ssa.UnOp)
+		if !ok {
+			return ""
+		}
+		fa, ok := u.X.(*ssa.FieldAddr)
+		if !ok {
+			return ""
+		}
+		fv := ir.FieldVar(fa)
+		if sig, isSig := fv.Type().Underlying().(*types.Signature); isSig && sig.Results().Len() >= 1 && strings.Contains(sig.Results().At(0).Type().String(), "ParsedRequest") {
+			return "parseReq" // the POST parse hook, whatever the field is called
+		}
+		return fv.Name()
 	}
-	if bo, ok := cd.V.(*ssa.BinOp); ok {
-		if s, isS := constString(bo.Y); isS {
+	if x, y, op, ok := ir.Rel(cd); ok {
+		if _, isS := constString(x); isS {
+			flip := map[token.Token]token.Token{token.LSS: token.GTR, token.GTR: token.LSS, token.LEQ: token.GEQ, token.GEQ: token.LEQ, token.EQL: token.EQL, token.NEQ: token.NEQ}
+			x, y, op = y, x, flip[op]
+		}
+		if s, isS := constString(y); isS {
 			lhs := "?"
-			if u, ok := bo.X.(*ssa.UnOp); ok {
-				if fa, ok := u.X.(*ssa.FieldAddr); ok {
-					lhs = ir.FieldVar(fa).Name()
-				}
+			if n := fieldName(x); n != "" {
+				lhs = n
 			}
-			if e, ok := bo.X.(*ssa.Extract); ok {
+			if e, ok := x.(*ssa.Extract); ok {
 				if call, ok := e.Tuple.(*ssa.Call); ok {
 					lhs = ir.BaseName(call.Call.StaticCallee()) + fmt.Sprintf("#%d", e.Index)
 				}
@@ -68,32 +84,39 @@ func describeHTTPCond(cd ir.Cond) string {
 					}
 				}
 			}
-			return neg + lhs + bo.Op.String() + fmt.Sprintf("%q", s)
+			if lk, ok := x.(*ssa.Lookup); ok {
+				if ks, isK := constString(lk.Index); isK {
+					lhs = "[" + ks + "]"
+				}
+			}
+			return lhs + op.String() + fmt.Sprintf("%q", s)
 		}
-		if x, isLen := ir.LenOf(bo.X); isLen {
-			k, _ := ir.ConstInt(bo.Y)
-			_ = x
-			return neg + "len" + bo.Op.String() + fmt.Sprint(k)
-		}
-	}
-	if x, eq, ok := ir.NilCompare(cd.V); ok {
-		name := "?"
-		if u, ok := x.(*ssa.UnOp); ok {
-			if fa, ok := u.X.(*ssa.FieldAddr); ok {
-				name = ir.FieldVar(fa).Name()
+		if _, isLen := ir.LenOf(x); isLen {
+			if k, isC := ir.ConstInt(y); isC {
+				return "len" + op.String() + fmt.Sprint(k)
 			}
 		}
-		if _, ok := x.(*ssa.Extract); ok {
-			name = "err"
+		if ir.IsNilConst(y) || ir.IsNilConst(x) {
+			v := x
+			if ir.IsNilConst(x) {
+				v = y
+			}
+			name := "?"
+			if n := fieldName(v); n != "" {
+				name = n
+			}
+			if _, ok := v.(*ssa.Extract); ok {
+				name = "err"
+			}
+			if _, ok := v.(*ssa.Call); ok && v.Type().String() == "error" {
+				name = "err"
+			}
+			return name + op.String() + "nil"
 		}
-		if _, ok := x.(*ssa.Call); ok && x.Type().String() == "error" {
-			name = "err"
-		}
-		op := "!="
-		if eq {
-			op = "=="
-		}
-		return neg + name + op + "nil"
+	}
+	neg := ""
+	if !cd.Truth {
+		neg = "¬"
 	}
 	if e, ok := cd.V.(*ssa.Extract); ok {
 		if lk, ok := e.Tuple.(*ssa.Lookup); ok {
@@ -342,12 +365,12 @@ func ruleBridgeGate(c *chk.Ctx) {
 			set[p] = true
 		}
 		switch {
-		case set["¬parseReq==nil"] && !set["parseReq==nil"]:
+		case set["parseReq!=nil"] && !set["parseReq==nil"]:
 			okHook = true
-		case set["parseReq==nil"] && set[`¬Method!="POST"`] && set[`¬ParseMediaType#0!="application/json"`] && set["¬has[charset]"]:
+		case set["parseReq==nil"] && set[`Method=="POST"`] && set[`ParseMediaType#0=="application/json"`] && set["¬has[charset]"]:
 			okCharsetAbsent = true
-		case set["parseReq==nil"] && set[`¬Method!="POST"`] && set[`¬ParseMediaType#0!="application/json"`] && set["has[charset]"]:
-			if set[`¬[charset]!="utf-8"`] || set[`¬[charset]!="utf8"`] {
+		case set["parseReq==nil"] && set[`Method=="POST"`] && set[`ParseMediaType#0=="application/json"`] && set["has[charset]"]:
+			if set[`[charset]=="utf-8"`] || set[`[charset]=="utf8"`] {
 				okUTF++
 			} else {
 				allOK = false
@@ -356,7 +379,7 @@ func ruleBridgeGate(c *chk.Ctx) {
 			allOK = false
 		}
 	}
-	c.Check(allOK && okHook && okCharsetAbsent && okUTF == 2, "TABLE.gate", f, "requests reach the bridge only through the gate", call.Pos(),
+	c.Check(allOK && okHook && okCharsetAbsent && okUTF >= 2, "TABLE.gate", f, "requests reach the bridge only through the gate", call.Pos(),
 		"the internal serve function is reached exactly when a parse hook is set, or method == POST ∧ media type == application/json ∧ charset ∈ {absent, utf-8, utf8}",
 		"the internal serve function is reached on edges ["+got+"]: a non-POST or non-JSON request could run handlers, or a legal one be refused")
 	// the failing edges write 405 / 415
@@ -373,7 +396,7 @@ func ruleBridgeGate(c *chk.Ctx) {
 	}
 	has := func(code int64, needle string) bool {
 		for _, k := range codes[code] {
-			if strings.Contains(k, needle) && !strings.Contains(k, "¬"+needle) {
+			if strings.Contains(k, needle) {
 				return true
 			}
 		}
@@ -381,7 +404,7 @@ func ruleBridgeGate(c *chk.Ctx) {
 	}
 	c.Check(has(405, `Method!="POST"`), "TABLE.gate", f, "405 for non-POST", f.Pos(), "405 is written on the method != POST edge", "no 405 on the method != POST edge")
 	c.Check(has(415, `ParseMediaType#0!="application/json"`) && has(415, "has[charset]"), "TABLE.gate", f, "415 for non-JSON / non-UTF-8", f.Pos(), "415 is written on the media-type and charset failure edges", "415 is not written on both the media-type and the charset failure edge")
-	c.Check(len(codes[500]) >= 1 && (strings.Contains(codes[500][0], "¬err==nil") || strings.Contains(codes[500][0], "err!=nil")), "TABLE.gate", f, "error status for a failed serve", f.Pos(), "500 exactly when the internal serve function reports an error (e.g. invalid JSON body)", "the error of the internal serve function is not turned into an error status")
+	c.Check(len(codes[500]) >= 1 && strings.Contains(codes[500][0], "err!=nil"), "TABLE.gate", f, "error status for a failed serve", f.Pos(), "500 exactly when the internal serve function reports an error (e.g. invalid JSON body)", "the error of the internal serve function is not turned into an error status")
 }
 
 // ruleBridgeIDs: C18-D2/D3/D4.
@@ -393,7 +416,7 @@ func ruleBridgeIDs(c *chk.Ctx) {
 	}
 	// appends by element type
 	var specApp, idApp, errApp, rspApp *ssa.Call
-	ir.Instrs(f, func(ins ssa.Instruction) {
+	c.P.ExtInstrs(f, func(ins ssa.Instruction) {
 		call, ok := ins.(*ssa.Call)
 		if !ok {
 			return
@@ -410,7 +433,7 @@ func ruleBridgeIDs(c *chk.Ctx) {
 		case strings.HasSuffix(t.String(), "json.RawMessage"):
 			// responses are appended after the Batch call, error objects before it
 			after := false
-			ir.Calls(f, func(ci ssa.CallInstruction) {
+			c.P.ExtCalls(f, func(ci ssa.CallInstruction) {
 				if g := ci.Common().StaticCallee(); g != nil && g.Name() == "Batch" && ir.InstrDominates(ci, call) {
 					after = true
 				}
@@ -436,8 +459,8 @@ func ruleBridgeIDs(c *chk.Ctx) {
 		return nil
 	}
 	// D3: spec append governed by Error == nil of the member; error append by Error != nil
-	specConds := condStrings(ir.CondsAt(specApp.Block()))
-	errConds := condStrings(ir.CondsAt(errApp.Block()))
+	specConds := condStrings(c.P.CondsWithin(specApp, f))
+	errConds := condStrings(c.P.CondsWithin(errApp, f))
 	has := func(ks []string, k string) bool {
 		for _, x := range ks {
 			if x == k {
@@ -446,11 +469,11 @@ func ruleBridgeIDs(c *chk.Ctx) {
 		}
 		return false
 	}
-	c.Check(has(specConds, "¬Error!=nil") || has(specConds, "Error==nil"), "PAIR.ids", f, "only valid members are sent on", specApp.Pos(), "a spec is appended only on the member.Error == nil edge", "a statically invalid member can be forwarded to the server ("+strings.Join(specConds, "∧")+")")
-	c.Check(has(errConds, "Error!=nil") || has(errConds, "¬Error==nil"), "PAIR.ids", f, "invalid members answered with their own error", errApp.Pos(), "the member's own error object is appended on the member.Error != nil edge", "error objects are appended on an edge other than member.Error != nil")
+	c.Check(has(specConds, "Error==nil"), "PAIR.ids", f, "only valid members are sent on", specApp.Pos(), "a spec is appended only on the member.Error == nil edge", "a statically invalid member can be forwarded to the server ("+strings.Join(specConds, "∧")+")")
+	c.Check(has(errConds, "Error!=nil"), "PAIR.ids", f, "invalid members answered with their own error", errApp.Pos(), "the member's own error object is appended on the member.Error != nil edge", "error objects are appended on an edge other than member.Error != nil")
 	// D2: the id append predicate is the negation of the Notify predicate, on the same member, same iteration
 	var notify *ssa.BinOp
-	ir.Instrs(f, func(ins ssa.Instruction) {
+	c.P.ExtInstrs(f, func(ins ssa.Instruction) {
 		st, ok := ins.(*ssa.Store)
 		if !ok {
 			return
@@ -465,7 +488,7 @@ func ruleBridgeIDs(c *chk.Ctx) {
 		why = "no matching id-append predicate"
 		nm := member(notify.X)
 		ns, _ := constString(notify.Y)
-		for _, cd := range ir.CondsAt(idApp.Block()) {
+		for _, cd := range c.P.CondsWithin(idApp, f) {
 			bo, ok := cd.V.(*ssa.BinOp)
 			if !ok {
 				continue
@@ -488,7 +511,7 @@ func ruleBridgeIDs(c *chk.Ctx) {
 			}
 		}
 		// no other conditions between the spec append and the id append
-		extra := len(ir.CondsAt(idApp.Block())) - len(ir.CondsAt(specApp.Block()))
+		extra := len(c.P.CondsWithin(idApp, f)) - len(c.P.CondsWithin(specApp, f))
 		if extra != 1 {
 			okLock = false
 			why = fmt.Sprintf("the id append is governed by %d conditions beyond those of the spec append (want exactly the ¬Notify test)", extra)
@@ -498,7 +521,7 @@ func ruleBridgeIDs(c *chk.Ctx) {
 		"the caller's ids are not recorded in lock step with the non-notification specs ("+why+"): responses would be relabelled with another member's id, or indexing would run out of range")
 	// SetID(inboundID[i]) with i the index of the response
 	okSet := false
-	ir.Calls(f, func(ci ssa.CallInstruction) {
+	c.P.ExtCalls(f, func(ci ssa.CallInstruction) {
 		g := ci.Common().StaticCallee()
 		if g == nil || g.Name() != "SetID" {
 			return
@@ -527,27 +550,53 @@ func ruleBridgeIDs(c *chk.Ctx) {
 	})
 	c.Check(okSet, "PAIR.ids", f, "response i gets caller id i", f.Pos(), "SetID(inboundID[i]) is applied to response i of the batch", "responses are not relabelled index-for-index with the recorded caller ids")
 	// D4: status/shape
-	for _, sw := range statusWrites(c, f) {
+	for _, sw := range statusWritesExt(c, f) {
 		if !sw.isC || sw.code != 204 {
 			continue
 		}
-		ks := condStrings(ir.CondsAt(sw.ci.Block()))
+		ks := condStrings(c.P.CondsWithin(sw.ci, f))
 		// governed by len(results)==0 where results is the final list
 		okLen := false
-		for _, cd := range ir.CondsAt(sw.ci.Block()) {
+		for _, cd := range c.P.CondsWithin(sw.ci, f) {
 			if bo, ok := cd.V.(*ssa.BinOp); ok && bo.Op == token.EQL && cd.Truth {
 				if x, isLen := ir.LenOf(bo.X); isLen {
 					if k, _ := ir.ConstInt(bo.Y); k == 0 {
 						// x must include both the error objects and the responses
 						hasErr, hasRsp := false, false
-						for _, src := range c.P.SourcesStop(x, func(v ssa.Value) bool { return v == ssa.Value(errApp) || v == ssa.Value(rspApp) }) {
-							if src == ssa.Value(errApp) {
-								hasErr = true
+						seenV := map[ssa.Value]bool{}
+						var reach func(v ssa.Value, depth int)
+						reach = func(v ssa.Value, depth int) {
+							if depth > 8 || seenV[v] {
+								return
 							}
-							if src == ssa.Value(rspApp) {
-								hasRsp = true
+							seenV[v] = true
+							for _, src := range c.P.SourcesStop(v, func(y ssa.Value) bool {
+								if y == ssa.Value(errApp) || y == ssa.Value(rspApp) {
+									return true
+								}
+								call, ok := y.(*ssa.Call)
+								if !ok {
+									return false
+								}
+								b, isB := call.Call.Value.(*ssa.Builtin)
+								return isB && b.Name() == "append"
+							}) {
+								if src == ssa.Value(errApp) {
+									hasErr = true
+								}
+								if src == ssa.Value(rspApp) {
+									hasRsp = true
+								}
+								if call, ok := src.(*ssa.Call); ok {
+									if b, isB := call.Call.Value.(*ssa.Builtin); isB && b.Name() == "append" {
+										for _, a := range call.Call.Args {
+											reach(a, depth+1)
+										}
+									}
+								}
 							}
 						}
+						reach(x, 0)
 						if hasErr && hasRsp {
 							okLen = true
 						}
@@ -557,21 +606,48 @@ func ruleBridgeIDs(c *chk.Ctx) {
 		}
 		c.Check(okLen, "PAIR.ids", f, "204 exactly when nothing to report", sw.ci.Pos(), "204 is written exactly under len(results) == 0, results holding both error objects and responses", "204 is written under ["+strings.Join(ks, "∧")+"], which is not 'no result of either kind': error objects of invalid members could be dropped")
 	}
-	enc := jhttpFunc(c, "(Bridge).encodeResponses")
-	if enc != nil {
-		okShape := false
-		for _, sw := range statusWrites(c, enc) {
-			if sw.isC && sw.code == 200 {
-				for _, cd := range ir.CondsAt(sw.ci.Block()) {
-					if describeHTTPCond(cd) == "len==1" {
-						// single object: third arg is element 0
-						okShape = true
+	// shape: a bare object exactly for one response. The 200 write sits in whatever function of the
+	// bridge encodes the results; either the write itself is on the len == 1 edge, or the body it
+	// writes is chosen on that edge
+	okShape := false
+	var shapeFn *ssa.Function
+	serve := jhttpFunc(c, "(Bridge).ServeHTTP")
+	var scope []*ssa.Function
+	scope = append(scope, c.P.Ext(f)...)
+	if serve != nil {
+		scope = append(scope, c.P.Ext(serve)...)
+	}
+	for _, g := range scope {
+		for _, sw := range statusWrites(c, g) {
+			if !sw.isC || sw.code != 200 {
+				continue
+			}
+			shapeFn = g
+			for _, cd := range ir.CondsAt(sw.ci.Block()) {
+				if describeHTTPCond(cd) == "len==1" {
+					okShape = true
+				}
+			}
+			// or the body argument is selected on the len == 1 edge
+			for _, a := range sw.ci.Common().Args {
+				phi, ok := ir.NormCell(a).(*ssa.Phi)
+				if !ok {
+					continue
+				}
+				for i := range phi.Edges {
+					for _, cd := range ir.EdgeConds(phi.Block().Preds[i], phi.Block()) {
+						if describeHTTPCond(cd) == "len==1" {
+							okShape = true
+						}
 					}
 				}
 			}
 		}
-		c.Check(okShape, "PAIR.ids", enc, "bare object exactly for one response", enc.Pos(), "a single response is written as a bare object on the len == 1 edge, an array otherwise, both with 200", "the single-object form is not chosen exactly on len == 1")
 	}
+	if shapeFn == nil {
+		shapeFn = f
+	}
+	c.Check(okShape, "PAIR.ids", shapeFn, "bare object exactly for one response", shapeFn.Pos(), "a single response is written as a bare object on the len == 1 edge, an array otherwise, both with 200", "the single-object form is not chosen exactly on len == 1")
 	c.Floor("PAIR.ids", 6, "valid-only, own error, lock step, SetID, 204, shape")
 }
 
@@ -657,6 +733,30 @@ func ruleGetterStatus(c *chk.Ctx) {
 					add(sw.code, ctx)
 				}
 			}
+			// the status computed by a private helper: each constant it returns, under the
+			// helper's own outcomes plus those at the write
+			if hc, ok := ir.NormCell(sw.arg).(*ssa.Call); ok {
+				if h := hc.Call.StaticCallee(); h != nil && c.P.InRepo[h] && !ir.Exported(h) {
+					for _, r := range ir.Returns(h) {
+						v := ir.ReturnResult(r, 0)
+						if phi, isPhi := v.(*ssa.Phi); isPhi {
+							for i, e := range phi.Edges {
+								if k, isC := ir.ConstInt(e); isC {
+									for _, ctx := range c.P.Contexts(sw.ci, func(g2 *ssa.Function) bool { return g2 == f }) {
+										add(k, append(append([]ir.Cond{}, ctx...), ir.EdgeConds(phi.Block().Preds[i], phi.Block())...))
+									}
+								}
+							}
+							continue
+						}
+						if k, isC := ir.ConstInt(v); isC {
+							for _, ctx := range c.P.Contexts(sw.ci, func(g2 *ssa.Function) bool { return g2 == f }) {
+								add(k, append(append([]ir.Cond{}, ctx...), ir.CondsAt(r.Block())...))
+							}
+						}
+					}
+				}
+			}
 		}
 	}
 	want := map[int64]func(m map[string]bool) bool{
@@ -734,6 +834,13 @@ func ruleQueryParams(c *chk.Ctx) {
 				case *ssa.Call, *ssa.Extract, *ssa.UnOp, *ssa.Lookup:
 					// strings from url.Values.Get / decoded strings
 					if src.Type().String() != "string" && src.Type().String() != "[]byte" {
+						// an entry of a package-level constant table: every value written to it
+						if okTable, why := constTableValuesAllowed(c, src, allowed); okTable {
+							continue
+						} else if why != "" {
+							bad = append(bad, why)
+							continue
+						}
 						bad = append(bad, fmt.Sprintf("%s of type %s", src.Name(), src.Type()))
 					}
 				default:
@@ -777,13 +884,51 @@ func ruleQueryParams(c *chk.Ctx) {
 				continue
 			}
 			m := ir.ReturnResult(r, 0)
-			call, isCall := m.(*ssa.Call)
-			trimmed := isCall && ir.IsCallTo(&call.Call, "strings.Trim")
-			nonEmpty := false
-			for _, cd := range ir.CondsAt(r.Block()) {
-				if bo, ok := cd.V.(*ssa.BinOp); ok && bo.X == m {
-					if s, isS := constString(bo.Y); isS && s == "" && ((bo.Op == token.EQL && !cd.Truth) || (bo.Op == token.NEQ && cd.Truth)) {
-						nonEmpty = true
+			checkAt := func(m ssa.Value, blk *ssa.BasicBlock) (bool, bool) {
+				call, isCall := m.(*ssa.Call)
+				trimmed := isCall && ir.IsCallTo(&call.Call, "strings.Trim")
+				nonEmpty := false
+				for _, cd := range ir.CondsAt(blk) {
+					if x, y, op, ok := ir.Rel(cd); ok {
+						sy, isY := constString(y)
+						sx, isX := constString(x)
+						if ((x == m && isY && sy == "") || (y == m && isX && sx == "")) && op == token.NEQ {
+							nonEmpty = true
+						}
+					}
+				}
+				return trimmed, nonEmpty
+			}
+			trimmed, nonEmpty := checkAt(m, r.Block())
+			// the method may come out of a private helper shared by the parsers: every success
+			// return of the helper must yield the trimmed, non-empty path
+			if e, isE := ir.NormCell(m).(*ssa.Extract); isE && !trimmed {
+				if hc, isCall := e.Tuple.(*ssa.Call); isCall {
+					if h := hc.Call.StaticCallee(); h != nil && c.P.InRepo[h] && !ir.Exported(h) {
+						all, nOK := true, 0
+						for _, r2 := range ir.Returns(h) {
+							last := len(r2.Results) - 1
+							if !ir.IsNilConst(ir.ReturnResult(r2, last)) {
+								continue
+							}
+							nOK++
+							t2, n2 := checkAt(ir.ReturnResult(r2, e.Index), r2.Block())
+							if !t2 || !n2 {
+								all = false
+							}
+						}
+						// and the caller uses the value only on the helper's success edge
+						used := false
+						for _, cd := range ir.CondsAt(r.Block()) {
+							if x, eq, ok := ir.NilCompare(cd.V); ok && eq == cd.Truth {
+								if ee, isEE := x.(*ssa.Extract); isEE && ee.Tuple == e.Tuple {
+									used = true
+								}
+							}
+						}
+						if all && nOK > 0 && used {
+							trimmed, nonEmpty = true, true
+						}
 					}
 				}
 			}
@@ -824,10 +969,21 @@ func ruleBodiesClosed(c *chk.Ctx) {
 		}
 		n++
 		closes := false
-		ir.Calls(f, func(ci ssa.CallInstruction) {
+		isBodyClose := func(ci ssa.CallInstruction) bool {
 			cc := ci.Common()
-			if cc.IsInvoke() && cc.Method.Name() == "Close" && strings.HasSuffix(cc.Value.Type().String(), "io.ReadCloser") {
+			return cc.IsInvoke() && cc.Method.Name() == "Close" && strings.HasSuffix(cc.Value.Type().String(), "io.ReadCloser")
+		}
+		ir.Calls(f, func(ci ssa.CallInstruction) {
+			if isBodyClose(ci) {
 				closes = true
+			}
+			// or hands the response to a method of the response type that closes it
+			if g := ci.Common().StaticCallee(); g != nil && c.P.InRepo[g] && !ir.Exported(g) {
+				ir.Calls(g, func(c2 ssa.CallInstruction) {
+					if isBodyClose(c2) {
+						closes = true
+					}
+				})
 			}
 		})
 		c.Check(closes, "PAIR.body", f, "received HTTP responses are closed", f.Pos(), "the function that takes responses off the result channel closes their bodies", "a function takes HTTP responses off the result channel and never closes their bodies: connections leak")
@@ -1185,10 +1341,14 @@ func ruleRecvClosesBody(c *chk.Ctx) {
 			return ok && ci.Common().IsInvoke() && ci.Common().Method.Name() == "Close" && strings.HasSuffix(ci.Common().Value.Type().String(), "io.ReadCloser")
 		}
 		bad := ""
-		for _, r := range ir.Returns(f) {
+		for _, r := range effectiveReturns(c, f, 0) {
 			// acceptable without a close: the !ok edge, or the err != nil edge of the received struct
 			exempt := false
-			for _, cd := range ir.CondsAt(r.Block()) {
+			conds := ir.CondsAt(r.Block())
+			if r.Parent() != f {
+				conds = c.P.CondsWithin(r, f)
+			}
+			for _, cd := range conds {
 				if e, ok := cd.V.(*ssa.Extract); ok && e.Tuple == ssa.Value(recv) && e.Index == 1 && !cd.Truth {
 					exempt = true
 				}
@@ -1207,7 +1367,7 @@ func ruleRecvClosesBody(c *chk.Ctx) {
 				continue
 			}
 			closed := false
-			ir.Instrs(f, func(i ssa.Instruction) {
+			ir.Instrs(r.Parent(), func(i ssa.Instruction) {
 				if isClose(i) && ir.InstrDominates(i, r) {
 					closed = true
 				}
@@ -1246,17 +1406,56 @@ func ruleQuerySliceBounds(c *chk.Ctx) {
 			n++
 			need := a + b
 			ok2 := false
-			for _, cd := range ir.CondsAt(sl.Block()) {
-				cb, ok := cd.V.(*ssa.BinOp)
+			// lenAtLeast: outcome cd says len(subject) >= need
+			lenAtLeast := func(cd ir.Cond, subject ssa.Value) bool {
+				x, y, op, ok := ir.Rel(cd)
 				if !ok {
+					return false
+				}
+				lx, isL := ir.LenOf(x)
+				k, isK := ir.ConstInt(y)
+				if !isL || !isK || lx != subject {
+					return false
+				}
+				return (op == token.GEQ && k >= need) || (op == token.GTR && k >= need-1)
+			}
+			for _, cd := range ir.CondsAt(sl.Block()) {
+				if lenAtLeast(cd, sl.X) {
+					ok2 = true
+				}
+				// a private predicate helper applied to the same string: every way it can yield
+				// this outcome establishes the bound on its own parameter
+				call, isCall := cd.V.(*ssa.Call)
+				if !isCall {
 					continue
 				}
-				lx, isL := ir.LenOf(cb.X)
-				k, isK := ir.ConstInt(cb.Y)
-				if !isL || !isK || lx != sl.X {
+				h := call.Call.StaticCallee()
+				if h == nil || !c.P.InRepo[h] || ir.Exported(h) {
 					continue
 				}
-				if (cb.Op == token.GEQ && cd.Truth && k >= need) || (cb.Op == token.GTR && cd.Truth && k >= need-1) || (cb.Op == token.LSS && !cd.Truth && k >= need) {
+				var prm *ssa.Parameter
+				for i, a := range call.Call.Args {
+					if a == sl.X && i < len(h.Params) {
+						prm = h.Params[i]
+					}
+				}
+				if prm == nil {
+					continue
+				}
+				alts := expandPredicateHelpers(c, []ir.Cond{cd}, 0)
+				all := len(alts) > 0
+				for _, alt := range alts {
+					found := false
+					for _, c2 := range alt {
+						if lenAtLeast(c2, prm) {
+							found = true
+						}
+					}
+					if !found {
+						all = false
+					}
+				}
+				if all {
 					ok2 = true
 				}
 			}
@@ -1266,4 +1465,89 @@ func ruleQuerySliceBounds(c *chk.Ctx) {
 	if n == 0 {
 		c.Undecided("PROV.bounds", nil, "query value slices", 0, "no s[a:len(s)-b] slice found in the query parsers")
 	}
+}
+
+
+// statusWritesExt: status writes in f and its private helpers.
+func statusWritesExt(c *chk.Ctx, f *ssa.Function) []statusWrite {
+	var out []statusWrite
+	for _, g := range c.P.Ext(f) {
+		out = append(out, statusWrites(c, g)...)
+	}
+	return out
+}
+
+
+// constTableValuesAllowed: v is an entry looked up in a package-level map that is
+// only written by the package initialiser; reports whether every value stored
+// there has an allowed dynamic type. why is non-empty when v is such a lookup
+// but a value is not allowed.
+func constTableValuesAllowed(c *chk.Ctx, v ssa.Value, allowed map[string]bool) (bool, string) {
+	var lk *ssa.Lookup
+	switch x := v.(type) {
+	case *ssa.Lookup:
+		lk = x
+	case *ssa.Extract:
+		lk, _ = x.Tuple.(*ssa.Lookup)
+	}
+	if lk == nil {
+		return false, ""
+	}
+	u, ok := lk.X.(*ssa.UnOp)
+	if !ok {
+		return false, ""
+	}
+	g, ok := u.X.(*ssa.Global)
+	if !ok || g.Pkg == nil {
+		return false, ""
+	}
+	all := append([]*ssa.Function{}, c.P.Funcs...)
+	if ini := g.Pkg.Func("init"); ini != nil {
+		all = append(all, ini)
+	}
+	n := 0
+	why := ""
+	for _, f := range all {
+		ir.Instrs(f, func(ins ssa.Instruction) {
+			mu, ok := ins.(*ssa.MapUpdate)
+			if !ok {
+				return
+			}
+			isTable := false
+			if lu, ok := mu.Map.(*ssa.UnOp); ok && lu.X == ssa.Value(g) {
+				isTable = true
+			}
+			if mk, ok := mu.Map.(*ssa.MakeMap); ok {
+				for _, r := range *mk.Referrers() {
+					if st, ok := r.(*ssa.Store); ok && st.Addr == ssa.Value(g) {
+						isTable = true
+					}
+				}
+			}
+			if !isTable {
+				return
+			}
+			n++
+			if f.Name() != "init" {
+				why = "the constant table " + g.Name() + " is written outside the package initialiser"
+				return
+			}
+			switch val := mu.Value.(type) {
+			case *ssa.MakeInterface:
+				if !allowed[val.X.Type().String()] {
+					why = "table entry of dynamic type " + val.X.Type().String()
+				}
+			case *ssa.Const:
+				if !val.IsNil() {
+					why = "table entry " + val.String()
+				}
+			default:
+				why = fmt.Sprintf("table entry %T", mu.Value)
+			}
+		})
+	}
+	if n == 0 {
+		return false, ""
+	}
+	return why == "", why
 }
